@@ -147,6 +147,8 @@ def check_one(chk, rng, i):
     files += [dict(extra)[p] for p in order]
     urls = [gen_url(rng) for _ in range(4)]
     model = driver().call("netrc", files=files, urls=urls)
+    norm = driver().call("netrc", files=files, urls=[x.rstrip("/") for x in urls])
+    norm_applied = {x: m2["applied"] for x, m2 in zip(urls, norm["urls"])}
     real_m = [[m.protocol or "", m.hostname, m.port, m.path, a[0], a[1]] for m, a in n._machines.items()]
     replay = {"files": files, "urls": urls}
     ref = ref_machines(files)
@@ -171,10 +173,19 @@ def check_one(chk, rng, i):
         if ra != mu["match"]:
             chk.violation("correspondence-netrc-match", dict(replay, url=us, disagreement={"real": ra, "model": mu["match"]},
                           correspondence="matchMachine vs NetRC.match_machine"), f"{us}: real {ra} model {mu['match']}", no_input=True)
-        # Config._update_netrc
-        un, pw = u.username, u.password
-        if auth and not un and not pw:
-            un, pw = auth
+        # Config._update_netrc, through the real Config: one repository line with this URL and etc_netrc = the auth file
+        cfgp = os.path.join(top, "mirror.list")
+        with open(cfgp, "w") as fp:
+            fp.write(f"set base_path {top}/spool\nset etc_netrc {main}\ndeb {us} stable main\n")
+        from apt_mirror.config import Config
+        repos = list(Config(Path(cfgp)).repositories.values())
+        un, pw = repos[0].url.username, repos[0].url.password
+        # the property, stated directly: credentials in the URL (either part) win; otherwise the matched entry's pair
+        if (u.username or u.password) and [un, pw] != [u.username, u.password]:
+            chk.violation("url-credentials-overridden", dict(replay, url=us),
+                          f"{us}: repository ends up with credentials {[un, pw]} although the URL carries {[u.username, u.password]}")
+        # Config drops a trailing '/' of the repository URL before matching: the model is asked about that URL
+        mu = dict(mu, applied=norm_applied[us])
         if [un, pw] != mu["applied"]:
             chk.violation("correspondence-netrc-applied", dict(replay, url=us, disagreement={"real": [un, pw], "model": mu["applied"]},
                           correspondence="applied vs Config._update_netrc"), f"{us}: real {[un, pw]} model {mu['applied']}", no_input=True)
